@@ -91,3 +91,33 @@ Module SCN.
   Proof. exact (conj reset_filter_same_chain reset_filter_on_scenario). Qed.
   Print Assumptions C11_two_filter_copies_agree.
 End SCN.
+
+(* ---- the nine lists of a loaded scenario are the code (tools/gen_coll_loaders.py, Proofs/CollLoadersTie.v): in the
+   regenerated loop body of CacheFetcher::getScenarios each of the nine members is assigned from a vector that is declared
+   in the same entry and filled by exactly one loop over the capnp list of the same name, behind `count`, with `at` on the
+   collection of that kind; and what the body computes - from ANY previous contents of the vectors - is the model's
+   scenario_step (unknown ids skipped, an unparsable one throws and leaves the scenario half filled) *)
+Require TrV.CollCode TrV.gen.CollLoaders.
+From TrV Require Proofs.CollLoadersTie.
+Module COLL11.
+  Import TrV.Loader2 TrV.CollCode.
+  Module CL := TrV.gen.CollLoaders.
+  Theorem C11_scenario_lists_are_code :
+    (list_feeds (lc_pre CL.gen_scenarios_loader ++ lc_item CL.gen_scenarios_loader) (lc_item CL.gen_scenarios_loader) =
+      [ (MServicesList, [(GServicesUuids, Some CServices, CServices)]);
+        (MOnlyLines, [(GOnlyLinesUuids, Some CLines, CLines)]);
+        (MOnlyAgencies, [(GOnlyAgenciesUuids, Some CAgencies, CAgencies)]);
+        (MOnlyNodes, [(GOnlyNodesUuids, Some CNodes, CNodes)]);
+        (MOnlyModes, [(GOnlyModesShortnames, Some CModes, CModes)]);
+        (MExceptLines, [(GExceptLinesUuids, Some CLines, CLines)]);
+        (MExceptAgencies, [(GExceptAgenciesUuids, Some CAgencies, CAgencies)]);
+        (MExceptNodes, [(GExceptNodesUuids, Some CNodes, CNodes)]);
+        (MExceptModes, [(GExceptModesShortnames, Some CModes, CModes)]) ] /\
+     vecs_fresh [] (lc_item CL.gen_scenarios_loader) = true) /\
+    (forall e vs s m,
+       snd (fst (scen_item (lc_item CL.gen_scenarios_loader) e (vs, s) m)) = fst (scenario_step e s m) /\
+       snd (scen_item (lc_item CL.gen_scenarios_loader) e (vs, s) m) = snd (scenario_step e s m)) /\
+    (forall e f s0 vs0 r0, run_scenarios CL.gen_scenarios_loader e f s0 vs0 r0 = Some (load_scenarios e f)).
+  Proof. exact TrV.Proofs.CollLoadersTie.scenario_lists_are_code. Qed.
+  Print Assumptions C11_scenario_lists_are_code.
+End COLL11.
